@@ -14,8 +14,7 @@
                     load_func_for_dataclass: aliases = {tag_key} iff the member has a tag and tag_key is no field
      dumpers.py     cls_asdict: result[tag_key] = tag when meta.tag is truthy
 
-   Field values are JSON-native and travel unchanged (field-level coercions are C01/C04); a member's
-   init fields are all required.  Member-level auto_assign_tags is not modelled (the dumper never
+   Field values are JSON-native and travel unchanged (field-level coercions are C01/C04).  Member-level auto_assign_tags is not modelled (the dumper never
    emits such a tag).  No proofs in this file. *)
 From DW Require Import PyStr.
 
@@ -33,6 +32,7 @@ Record member := {
   m_name : pstr;            (* __name__ *)
   m_tag : option pstr;      (* explicit Meta.tag *)
   m_fields : list pstr;     (* init fields = keys written by dump / accepted by load *)
+  m_defaults : list (pstr * jv);  (* defaults of the fields that have one; the other fields are required *)
   m_catchall : bool;        (* has a CatchAll field with default None *)
   m_raise : bool            (* unknown keys raise for this member *)
 }.
@@ -135,10 +135,13 @@ Fixpoint dump_lv (c : uconf) (v : lv) : jv :=
 (* ---- member loaders ---------------------------------------------------------- *)
 Definition is_field (k : pstr) (m : member) : bool := mem_str k (m_fields m).
 
-Fixpoint collect (fields : list pstr) (kw : list (pstr * jv)) : option (list (pstr * jv)) :=
+Definition first_jv (a b : option jv) : option jv := match a with Some v => Some v | None => b end.
+
+(* constructor call with init_kwargs: every field from the document, else its default, else MissingFields *)
+Fixpoint collect (fields : list pstr) (kw dfl : list (pstr * jv)) : option (list (pstr * jv)) :=
   match fields with
   | [] => Some []
-  | f :: r => match lookup f kw, collect r kw with
+  | f :: r => match first_jv (lookup f kw) (lookup f dfl), collect r kw dfl with
               | Some v, Some l => Some ((f, v) :: l)
               | _, _ => None
               end
@@ -155,7 +158,7 @@ Definition whitelisted_v0 (c : uconf) (pre : bool) (m : member) : bool :=
 
 Fixpoint scan_v0 (c : uconf) (m : member) (wl : bool) (items kw extra : list (pstr * jv)) : res :=
   match items with
-  | [] => match collect (m_fields m) kw with
+  | [] => match collect (m_fields m) kw (m_defaults m) with
           | Some vals => Ok (LInst m vals extra)
           | None => Err (EMissing (m_cid m))
           end
@@ -180,7 +183,7 @@ Definition load_member_v1 (c : uconf) (m : member) (items : list (pstr * jv)) : 
   let known := filter (fun kv => is_field (fst kv) m) items in
   if negb (m_catchall m) && m_raise m && negb (match unknown with [] => true | _ => false end)
   then Err (EUnknownKey (m_cid m) (match unknown with (k, _) :: _ => k | [] => [] end))
-  else match collect (m_fields m) known with
+  else match collect (m_fields m) known (m_defaults m) with
        | Some vals => Ok (LInst m vals (if m_catchall m then unknown else []))
        | None => Err (EMissing (m_cid m))
        end.
